@@ -87,3 +87,17 @@ Proof.
   - lra.
   - unfold prof. rewrite area2_translate. apply (circle_clockwise r n c Hn ltac:(lra) Hc).
 Qed.
+
+(* ---- prisms and lofts of fan-convex profiles ---- *)
+Theorem prism_fanconvex (pts : list V2) (h : R) ph : linear_extrude pts h = Some ph ->
+  fanconv false (enumerate pts) -> fanconv true (rev (enumerate pts)) ->
+  closed_exact (snd ph) /\ (0 < h -> Poly.area2 pts < 0 -> vol6 (fst ph) (snd ph) < 0).
+Proof.
+  intros E F1 F2.
+  assert (Hk : (3 <= length pts)%nat).
+  { unfold linear_extrude, triangulate2d in E. destruct (triangulate2d_rev pts); [|discriminate]. destruct (Nat.ltb_spec 3 (length pts)); [lia|discriminate]. }
+  assert (C1 : complete (enumerate pts)) by (apply (fanconv_complete false); [exact F1|rewrite enumerate_length; exact Hk]).
+  assert (C2 : complete (rev (enumerate pts))) by (apply (fanconv_complete true); [exact F2|rewrite rev_length, enumerate_length; exact Hk]).
+  split; [apply (linear_extrude_closed_exact pts h ph E C2 C1)|].
+  intros Hh Ha. rewrite (linear_extrude_volume pts h ph E C1). nra.
+Qed.
